@@ -1,2 +1,55 @@
+(* C12 - primitive value types denote exactly their wire domains (model: Types/Phantom.v; the
+   interval bounds it is instantiated with are the translated ones: inst/InstC12.v). *)
 From Coq Require Import ZArith List Bool.
-From KioV Require Import Types.Phantom.
+From KioV Require Import Base.Res Base.Prog Prim.Bytes Prim.Time Codec.Value Codec.PrimCodec Types.Phantom Types.PhantomProofs.
+Import ListNotations.
+Open Scope Z_scope.
+
+(* the constructor returns a member unchanged and rejects everything else with TypeError *)
+Theorem c12_constructor : forall t v, call t v = if isinstance t v then Ok v else Err EType.
+Proof. exact call_spec. Qed.
+Print Assumptions c12_constructor.
+
+(* integer types nest by range, for every Python value *)
+Theorem c12_nesting : forall lo1 hi1 lo2 hi2 v, lo2 <= lo1 -> hi1 <= hi2 ->
+  isinstance (TInterval lo1 hi1) v = true -> isinstance (TInterval lo2 hi2) v = true.
+Proof. exact interval_nesting. Qed.
+Theorem c12_i8_i16_i32_i64 : forall v,
+  (isinstance (TInterval (-2^7) (2^7-1)) v = true -> isinstance (TInterval (-2^15) (2^15-1)) v = true) /\
+  (isinstance (TInterval (-2^15) (2^15-1)) v = true -> isinstance (TInterval (-2^31) (2^31-1)) v = true) /\
+  (isinstance (TInterval (-2^31) (2^31-1)) v = true -> isinstance (TInterval (-2^63) (2^63-1)) v = true).
+Proof. exact i8_i16_i32_i64. Qed.
+Print Assumptions c12_nesting.
+
+(* membership of a fixed-width integer type <-> the writer accepts it; then it reads back *)
+Theorem c12_int_member_iff_writable : forall w s z, (0 < w)%nat ->
+  (isinstance (TInterval (int_lo w s) (int_hi w s)) (PyInt z) = true <-> exists bs, write_int w s z = Ok bs).
+Proof. exact int_member_iff_writable. Qed.
+Theorem c12_int_member_reads_back : forall w s z bs tl, (0 < w)%nat ->
+  isinstance (TInterval (int_lo w s) (int_hi w s)) (PyInt z) = true -> write_int w s z = Ok bs ->
+  run (read_int w s) (bs ++ tl) = Ok (z, tl).
+Proof. exact int_member_roundtrip. Qed.
+Print Assumptions c12_int_member_iff_writable.
+
+(* floats, durations (rounded half-even to whole milliseconds), timestamps *)
+Theorem c12_f64 : forall ec bits tl, 0 <= bits < 2^64 -> isinstance TF64 (PyFloat bits) = true ->
+  exists bs, enc_prim PF64 (VF64 bits) = Ok bs /\ run (dec_prim ec PF64) (bs ++ tl) = Ok (VF64 bits, tl).
+Proof. exact f64_member_roundtrip. Qed.
+Theorem c12_td32 : forall ec us tl, isinstance TTd32 (PyTimedelta us) = true ->
+  exists bs, enc_prim PTd32 (VDur us) = Ok bs /\
+             run (dec_prim ec PTd32) (bs ++ tl) = Ok (VDur (round_half_even_1000 us * 1000), tl).
+Proof. exact td32_member_roundtrip. Qed.
+Theorem c12_td64 : forall ec us tl, isinstance TTd64 (PyTimedelta us) = true ->
+  exists bs, enc_prim PTd64 (VDur us) = Ok bs /\
+             run (dec_prim ec PTd64) (bs ++ tl) = Ok (VDur (round_half_even_1000 us * 1000), tl).
+Proof. exact td64_member_roundtrip. Qed.
+Theorem c12_timestamp : forall ec us tl n, isinstance TTzAware (PyDatetime true us) = true -> us <= dt_max_us ->
+  exists bs, enc_prim (PDt n) (VTime us) = Ok bs /\ run (dec_prim ec (PDt n)) (bs ++ tl) = Ok (VTime us, tl).
+Proof. exact tz_member_roundtrip. Qed.
+Print Assumptions c12_td64.
+Print Assumptions c12_timestamp.
+
+Example c12_rejects : isinstance (TInterval 0 255) (PyFloat 0) = false /\ isinstance TF64 (PyInt 1) = false
+  /\ isinstance TTzAware (PyDatetime false 0) = false /\ isinstance TTzAware (PyDatetime true 1500) = false
+  /\ call (TInterval (-128) 127) (PyInt 128) = Err EType /\ isinstance (TInterval 0 255) (PyBool true) = true.
+Proof. vm_compute. repeat split; reflexivity. Qed.
